@@ -572,14 +572,27 @@ func (p *Prog) symAlloc(s *Sym, a *ssa.Alloc) {
 	stores := p.allocStores(a)
 	if len(stores) == 1 && stores[0].Parent() == a.Parent() {
 		st := stores[0]
-		// spilled parameter or single-assignment local: denote by its value
-		if _, isParam := st.Val.(*ssa.Parameter); isParam || st.Block() == a.Block() || st.Block().Dominates(a.Block()) || a.Block().Dominates(st.Block()) {
-			if !p.inLoop(st.Block()) || isParamVal(st.Val) {
-				inner := p.Sym(st.Val)
-				*s = *inner
-				s.str = ""
-				return
+		// spilled parameter or single-assignment local: denote by its value when the
+		// store dominates every other use of the variable in this function
+		dom := true
+		if refs := a.Referrers(); refs != nil {
+			for _, r := range *refs {
+				if r == ssa.Instruction(st) {
+					continue
+				}
+				if _, isDbg := r.(*ssa.DebugRef); isDbg {
+					continue
+				}
+				if !Dominates(st, r) {
+					dom = false
+				}
 			}
+		}
+		if dom {
+			inner := p.Sym(st.Val)
+			*s = *inner
+			s.str = ""
+			return
 		}
 	}
 	s.Kind = "alloc"
@@ -741,6 +754,14 @@ func (p *Prog) storeSite(in ssa.Instruction) *StoreSite {
 	switch x := in.(type) {
 	case *ssa.Store:
 		ss := &StoreSite{Fn: x.Parent(), Instr: x, Addr: p.Sym(x.Addr), Val: p.Sym(x.Val), ValV: x.Val}
+		if al, isAlloc := x.Addr.(*ssa.Alloc); isAlloc {
+			// the address of a local variable is the variable, not the value it holds
+			nm := al.Comment
+			if nm == "" {
+				nm = "tmp"
+			}
+			ss.Addr = &Sym{Kind: "alloc", Name: nm, V: al}
+		}
 		a := ss.Addr.Strip()
 		if a.Kind == "field" {
 			ss.Owner, ss.Field = a.Owner, a.Name
